@@ -730,15 +730,25 @@ impl CompilerContext<'_> {
             self.mapfiles.push(path.to_owned());
         }
 
+        // opcodes are 16 bits in every format; don't let an out-of-range key silently alias another opcode
+        let opcode_from_key = |key: i32, value_span: Span| -> Result<raw::Opcode, ErrorReported> {
+            raw::Opcode::try_from(key).map_err(|_| emitter.emit(error!(
+                message("opcode {key} is out of range"),
+                primary(value_span, "opcodes must be in the range 0 to {}", raw::Opcode::MAX),
+            )))
+        };
+
         for (names, signatures, language) in vec![
             (&mapfile.ins_names, &mapfile.ins_signatures, mapfile.language),
             (&mapfile.timeline_ins_names, &mapfile.timeline_ins_signatures, LanguageKey::Timeline),
         ] {
             for &(opcode, ref ident) in names {
-                self.define_global_ins_alias(language, opcode as u16, ident.clone());
+                let opcode = opcode_from_key(opcode, ident.span)?;
+                self.define_global_ins_alias(language, opcode, ident.clone());
             }
 
             signatures.iter().map(|&(opcode, ref abi_str)| {
+                let opcode = opcode_from_key(opcode, abi_str.span)?;
                 // since there's no escape syntax in mapfile values, abi_str exactly matches the source text,
                 // so we can construct a SourceStr
                 let abi_source = SourceStr::from_span(abi_str.span, &abi_str);
@@ -749,10 +759,10 @@ impl CompilerContext<'_> {
                 let abi_loc = match mapfile.is_core_mapfile {
                     false => InstrAbiLoc::Span(abi_str.span),
                     true => InstrAbiLoc::CoreMapfile {
-                        language, opcode: opcode as u16, abi_str: abi_str[..].into(),
+                        language, opcode, abi_str: abi_str[..].into(),
                     },
                 };
-                self.set_ins_abi(language, opcode as u16, abi, abi_loc);
+                self.set_ins_abi(language, opcode, abi, abi_loc);
                 Ok::<_, ErrorReported>(())
             }).collect_with_recovery::<()>()?;
         }
@@ -782,7 +792,8 @@ impl CompilerContext<'_> {
             // so we can construct a SourceStr
             let kind_source = SourceStr::from_span(kind_str.span, &kind_str);
             let kind = sp!(kind_str.span => IntrinsicInstrKind::parse(kind_source, emitter)?);
-            self.defs.add_intrinsic_instr(mapfile.language, opcode as _, kind);
+            let opcode = opcode_from_key(opcode, kind_str.span)?;
+            self.defs.add_intrinsic_instr(mapfile.language, opcode, kind);
             Ok(())
         }).collect_with_recovery::<()>()?;
 
